@@ -4,8 +4,8 @@ import os
 from pathlib import Path
 import re
 from typing import (
-        Any, AnyStr, Callable, cast, Dict, IO, List, overload, TypeVar, Union
-        )  # noqa
+        Any, AnyStr, Callable, cast, Dict, IO, List, overload, Set, TypeVar,
+        Union)  # noqa
 from typing_extensions import ClassVar, Type    # noqa
 
 import yaml
@@ -65,8 +65,41 @@ class Loader(yaml.SafeLoader):
             # an empty document is a null value, and is checked like one
             mark = yaml.error.Mark('<empty document>', 0, 0, 0, None, 0)
             node = yaml.ScalarNode('tag:yaml.org,2002:null', '', mark, mark)
+        self.__reject_recursive_aliases(node, set(), set())
         node = self.__process_node(node, type(self).document_type)
         return node
+
+    def __reject_recursive_aliases(
+            self, node: yaml.Node, ancestors: Set[int], done: Set[int]
+            ) -> None:
+        """Raises if a node contains an alias to itself.
+
+        PyYAML can compose such documents, but there is no way to
+        recognise or construct the resulting infinitely deep value.
+
+        Args:
+            node: The node to check.
+            ancestors: Ids of the nodes on the path to this node.
+            done: Ids of nodes that were already checked completely.
+        """
+        if id(node) in ancestors:
+            raise RecognitionError(
+                    '{}\nThis alias refers to a node that contains it,'
+                    ' recursive structures are not supported'.format(
+                        node.start_mark))
+        if id(node) in done:
+            return
+        if isinstance(node, yaml.SequenceNode):
+            children = list(node.value)
+        elif isinstance(node, yaml.MappingNode):
+            children = [child for pair in node.value for child in pair]
+        else:
+            return
+        ancestors.add(id(node))
+        for child in children:
+            self.__reject_recursive_aliases(child, ancestors, done)
+        ancestors.remove(id(node))
+        done.add(id(node))
 
     def get_node(self) -> yaml.Node:
         """Hook used when reading a multi-document stream.
